@@ -37,7 +37,7 @@ def node_str(n, lang_ns, bmap):
             bmap[n] = len(bmap)
         return f"_:{bmap[n]}"
     s = str(n)
-    for prefix, ns in (("tf:", str(TF)), ("ns:", lang_ns), ("rdf:", str(RDF)), ("rdfs:", str(RDFS))):
+    for prefix, ns in (("tf:", str(TF)), ("wf:", "https://example.com/wf#"), ("ns:", lang_ns), ("rdf:", str(RDF)), ("rdfs:", str(RDFS))):
         if s.startswith(ns):
             return prefix + s[len(ns):]
     if isinstance(n, Literal):
